@@ -227,4 +227,94 @@ Proof.
   - intros Hw. destruct (mk_root H t v Hty Hw) as (n & Hn & _). eauto.
   - intros (n & Hn). destruct (mk_sound t v n Hty Hn) as [Hw _]. now rewrite Hc in Hw.
 Qed.
+
+(* whatever the constructor builds contains no virtual node *)
+Lemma CRep_novirt d n ns : CRep H d n ns -> Forall novirt ns -> novirt n.
+Proof.
+  induction 1 as [d|x|d l r ls rs Hl IHl Hr IHr Hor]; intros Hf.
+  - exact I.
+  - now inversion Hf.
+  - apply Forall_app in Hf as [Hfl Hfr]. split; auto.
+Qed.
+
+Lemma ftc_novirt ns d n : fill_to_contents H ns d = Ok n -> Forall novirt ns -> novirt n.
+Proof.
+  intros Hf Hn. destruct (Nat.le_gt_cases (length ns) (2 ^ d)) as [Hle|Hgt].
+  - destruct (fill_to_contents_CRep H d ns Hle) as (n' & Hf' & Hc). rewrite Hf in Hf'. inversion Hf'; subst. now apply (CRep_novirt d n' ns).
+  - exfalso. destruct ns as [|a rest]; [cbn in Hgt; pose proof (Nat.pow_nonzero 2 d); lia|].
+    assert ((pow2 d <? lenN (a :: rest)) = true) as E.
+    { apply N.ltb_lt. unfold lenN. pose proof (pow2_nat d). lia. }
+    destruct d; cbn [fill_to_contents] in Hf; rewrite E in Hf; discriminate.
+Qed.
+
+Lemma Forall_novirt_RootN (cs : list bytes) : Forall novirt (map RootN cs).
+Proof. apply Forall_forall. intros x Hx. apply in_map_iff in Hx as (c & <- & _). exact I. Qed.
+
+Lemma seq_res_Forall {A B} (f : A -> result B) (P : B -> Prop) : forall l r, seq_res (map f l) = Ok r ->
+  (forall x y, In x l -> f x = Ok y -> P y) -> Forall P r.
+Proof.
+  induction l as [|a l IH]; intros r Hr Hp; cbn [map seq_res] in Hr; [inversion Hr; constructor|].
+  destruct (f a) as [y|] eqn:Hy; [|discriminate]. cbn [bind] in Hr. destruct (seq_res (map f l)) as [ys|] eqn:Hys; [|discriminate]. cbn [bind] in Hr.
+  inversion Hr; subst. constructor; [apply (Hp a y); [now left|exact Hy]|]. apply IH; auto. intros x z Hx. apply Hp. now right.
+Qed.
+
+Theorem mk_novirt : forall t v n, wf_ty t = true -> mk t v = Ok n -> novirt n.
+Proof.
+  induction t as [k| |bn|bl|yn|yl|e nn IHe|e l IHe|fs Hfs|b os Hos] using ty_ind'; intros v n Hty Hm.
+  - cbn [ModelViews.mk] in Hm. destruct (mk_basic (TUint k) v); [|discriminate]. inversion Hm; subst. exact I.
+  - cbn [ModelViews.mk] in Hm. destruct (mk_basic TBool v); [|discriminate]. inversion Hm; subst. exact I.
+  - destruct v; cbn [ModelViews.mk] in Hm; try discriminate. destruct (negb _); [discriminate|]. eapply ftc_novirt; [exact Hm|apply Forall_novirt_RootN].
+  - destruct v; cbn [ModelViews.mk] in Hm; try discriminate. destruct (bl <? lenN bs); [discriminate|].
+    destruct (fill_to_contents H _ _) as [c|] eqn:Hc; [|discriminate]. inversion Hm; subst. split; [|exact I]. eapply ftc_novirt; [exact Hc|apply Forall_novirt_RootN].
+  - destruct v; cbn [ModelViews.mk] in Hm; try discriminate. destruct (negb _); [discriminate|]. eapply ftc_novirt; [exact Hm|apply Forall_novirt_RootN].
+  - destruct v; cbn [ModelViews.mk] in Hm; try discriminate. destruct (yl <? lenN bs); [discriminate|].
+    destruct (fill_to_contents H _ _) as [c|] eqn:Hc; [|discriminate]. inversion Hm; subst. split; [|exact I]. eapply ftc_novirt; [exact Hc|apply Forall_novirt_RootN].
+  - (* vector *)
+    pose proof Hty as Hty0. cbn [wf_ty] in Hty. apply andb_true_iff in Hty as [Hty' _]. apply andb_true_iff in Hty' as [Hte Hn1]. apply N.leb_le in Hn1.
+    assert (forall vs n0, vs <> [] -> mk (TVector e nn) (VSeq vs) = Ok n0 -> novirt n0) as Hne.
+    { intros vs n0 Hvs Hm0. cbn [ModelViews.mk] in Hm0. destruct vs as [|x0 xs]; [contradiction|]. set (vs := x0 :: xs) in *.
+      destruct (negb (lenN vs =? nn)); [discriminate|].
+      match type of Hm0 with (do ns <- ?A; _) = _ => destruct A as [ns|] eqn:Hns; [|discriminate] end. cbn [bind] in Hm0.
+      eapply ftc_novirt; [exact Hm0|]. destruct (basic_size e).
+      - destruct (seq_res (map (mk_basic e) vs)); [|discriminate]. inversion Hns; subst. apply Forall_novirt_RootN.
+      - apply (seq_res_Forall (mk e) novirt vs ns Hns). intros x y _ Hxy. now apply (IHe x y). }
+    destruct v as [| | | |vs| |]; cbn [ModelViews.mk] in Hm; try discriminate. destruct vs as [|x0 xs].
+    + rewrite (default_eq_mk H _ Hty0) in Hm. cbn [zero_val] in Hm. apply (Hne _ n) in Hm; [exact Hm|].
+      intros E. apply (f_equal (@length val)) in E. rewrite repeat_length in E. cbn in E. lia.
+    + apply (Hne (x0 :: xs) n); [discriminate|exact Hm].
+  - (* list *)
+    cbn [wf_ty] in Hty. apply andb_true_iff in Hty as [Hte _].
+    destruct v as [| | | |vs| |]; cbn [ModelViews.mk] in Hm; try discriminate. destruct vs as [|x0 xs].
+    + cbn [ModelViews.default_node] in Hm. inversion Hm; subst. split; exact I.
+    + set (vs := x0 :: xs) in *. destruct (l <? lenN vs); [discriminate|].
+      match type of Hm with (do ns <- ?A; _) = _ => destruct A as [ns|] eqn:Hns; [|discriminate] end. cbn [bind] in Hm.
+      destruct (fill_to_contents H ns _) as [c|] eqn:Hc; [|discriminate]. inversion Hm; subst. split; [|exact I].
+      eapply ftc_novirt; [exact Hc|]. destruct (basic_size e).
+      * destruct (seq_res (map (mk_basic e) vs)); [|discriminate]. inversion Hns; subst. apply Forall_novirt_RootN.
+      * apply (seq_res_Forall (mk e) novirt vs ns Hns). intros x y _ Hxy. now apply (IHe x y).
+  - (* container *)
+    cbn [wf_ty] in Hty. apply andb_true_iff in Hty as [_ Htys].
+    destruct v as [| | | | |vs|]; cbn [ModelViews.mk] in Hm; try discriminate.
+    match type of Hm with (do ns <- ?A; _) = _ => destruct A as [ns|] eqn:Hns; [|discriminate] end. cbn [bind] in Hm.
+    eapply ftc_novirt; [exact Hm|]. clear Hm. revert vs ns Hns Htys. induction Hfs as [|f fs Hf Hfs' IH]; intros vs ns Hns Htys.
+    + destruct vs; [|discriminate]. inversion Hns; constructor.
+    + destruct vs as [|x vs]; [discriminate|]. cbn [forallb] in Htys. apply andb_true_iff in Htys as [Htf Htys].
+      destruct (mk f x) as [a|] eqn:Ha; [|discriminate]. cbn [bind] in Hns.
+      match type of Hns with (do r <- ?A; _) = _ => destruct A as [r|] eqn:Hr; [|discriminate] end. cbn [bind] in Hns. inversion Hns; subst.
+      constructor; [now apply (Hf x a)|now apply (IH vs r)].
+  - (* union *)
+    cbn [wf_ty] in Hty. apply andb_true_iff in Hty as [Hty' _]. apply andb_true_iff in Hty' as [Htys _].
+    destruct v as [| | | | | |sel ov]; cbn [ModelViews.mk] in Hm; try discriminate.
+    destruct (lenN os + (if b then 1 else 0) <=? N.of_nat sel); [discriminate|].
+    match type of Hm with (do c <- ?A; _) = _ => destruct A as [c|] eqn:Hc; [|discriminate] end. cbn [bind] in Hm. inversion Hm; subst. split; [|exact I].
+    destruct ov as [x|].
+    + destruct (b && Nat.eqb sel 0); [discriminate|]. rewrite pick_nth' in Hc.
+      destruct (nth_error os _) as [o|] eqn:Hn; [|discriminate]. rewrite Forall_forall in Hos. apply (Hos o (nth_error_In _ _ Hn) x c); [|exact Hc].
+      rewrite forallb_forall in Htys. apply Htys. eapply nth_error_In; eauto.
+    + destruct (b && Nat.eqb sel 0); [inversion Hc; exact I|]. rewrite pick_nth' in Hc.
+      destruct (nth_error os _) as [o|] eqn:Hn; [|discriminate].
+      assert (wf_ty o = true) as Hto by (rewrite forallb_forall in Htys; apply Htys; eapply nth_error_In; eauto).
+      rewrite (default_eq_mk H o Hto) in Hc. rewrite Forall_forall in Hos. exact (Hos o (nth_error_In _ _ Hn) _ c Hto Hc).
+Qed.
+
 End WithHash.
